@@ -147,6 +147,46 @@ def it_assign(c):
     return {'outs': {'r': d}, 'widths': {'r': w_eff}, 'oracle': lambda ins: {'r': ins['a'] & ((1 << w_eff) - 1)}}
 
 
+ROMDATA = [0xAB, 0x12, 0xFF, 0x80]
+
+
+def it_memread(c):
+    """the object a memory read `mem[addr]` returns, used as an operand more than once and at different widths"""
+    a = I(2, 'a')
+    rom = pyrtl.RomBlock(8, 2, list(ROMDATA), name='rom')
+    x = rom[a]
+    outs = {}
+    uses = c['uses']
+    for n, u in enumerate(uses):
+        if u == 'narrow':
+            d = pyrtl.WireVector(4, 'd%d' % n)
+            d <<= x
+        elif u == 'same':
+            d = pyrtl.WireVector(8, 'd%d' % n)
+            d <<= x
+        elif u == 'wide':
+            d = pyrtl.WireVector(11, 'd%d' % n)
+            d <<= x
+        elif u == 'plus':
+            d = x + 1
+        elif u == 'slice':
+            d = x[2:7]
+        elif u == 'invert':
+            d = ~x
+        else:
+            raise ValueError(u)
+        outs['r%d' % n] = d
+
+    def orc(ins):
+        word = 0
+        for i in reversed(range(4)):
+            word = ite(ins['a'] == i, ROMDATA[i], word)
+        fns = {'narrow': lambda w: w & 15, 'same': lambda w: w, 'wide': lambda w: w, 'plus': lambda w: w + 1,
+               'slice': lambda w: (w >> 2) & 31, 'invert': lambda w: 255 - w}
+        return {'r%d' % n: fns[u](word) for n, u in enumerate(uses)}
+    return {'outs': outs, 'oracle': orc}
+
+
 def it_extend(c):
     wa, wd = c['wa'], c['wd']
     a = I(wa, 'a')
@@ -273,7 +313,7 @@ def it_reduce(c):
 ITEMS = {'binop': it_binop, 'constop': it_constop, 'invert': it_invert, 'slice': it_slice, 'concat': it_concat,
          'assign': it_assign, 'extend': it_extend, 'truncate': it_truncate, 'select': it_select, 'signed': it_signed,
          'signed_int': it_signed_int, 'shift_wire': it_shift_wire, 'shift_const': it_shift_const, 'barrel': it_barrel,
-         'reduce': it_reduce}
+         'reduce': it_reduce, 'memread': it_memread}
 
 WQ = [1, 2, 3, 4, 5, 8]
 WT = WQ + [7, 16, 31, 32, 33, 63, 64, 65, 127, 128, 129, 130]
@@ -363,6 +403,10 @@ def cases(tier, seed):
     for w in ([1, 2, 3, 5, 6, 8] if tier == 'quick' else [1, 2, 3, 4, 5, 6, 7, 8, 9, 12, 17]):
         for ws in range(1, 6):
             out.append({'item': 'barrel', 'wa': w, 'ws': ws})
+    for uses in itertools.permutations(['narrow', 'same', 'wide', 'plus', 'slice', 'invert'], 2):
+        out.append({'item': 'memread', 'uses': list(uses)})
+    out.append({'item': 'memread', 'uses': ['narrow', 'wide', 'plus', 'same', 'invert', 'slice']})
+    out.append({'item': 'memread', 'uses': ['wide', 'narrow', 'plus']})
     return out
 
 
